@@ -303,7 +303,8 @@ DESCR = {
 
 def run(pid, tier, seed):
     n = 3000 if tier == "thorough" else 300
-    ps = progs.programs(seed * 104729 + int(pid[1:]), n, max_choices=10, extreme=pid in ("C05", "C06"))
+    ps = progs.programs(seed * 104729 + int(pid[1:]), n, max_choices=10, extreme=pid in ("C05", "C06"),
+                        compound=pid in ("C03", "C04", "C07", "C08"))
     col = Collector("%s:metamorphic" % pid,
                     "%d seeded programs of the bounded family; %s; each variant must give the same accept/reject decision, "
                     "the same reported instances and probabilities (1e-7) as the reference run; distinct = program "
